@@ -22,7 +22,7 @@ COMPONENTS = {"real": ["bioscrape.simulator SSASimulator / VolumeSSASimulator / 
                        "bioscrape.random primitives (uniform source scripted in scripted mode)"],
               "stub": ["none (in scripted mode only the uniform source is replaced)"]}
 TIERS = {
-    "quick": {"cases": 24000, "block": 150, "case_timeout": 30.0},
+    "quick": {"cases": 16000, "block": 150, "case_timeout": 30.0},
     "thorough": {"cases": 600000, "block": 400, "case_timeout": 60.0},
 }
 MODES = ["ssa", "ssa", "ssa", "volume", "volume", "delay", "delay", "delay", "delayvolume"]
